@@ -111,11 +111,35 @@ def main():
         if real.ring != spec:
           fail('c06-compat-ring', hash_type=ht, nodes=nodes, first_difference=repr(next(((x, y) for x, y in zip(real.ring, spec) if x != y), ('lengths', len(real.ring), len(spec)))))
           continue
-        ow = owners(real.ring)
+        # the real lookup at EVERY ring position: get_node with the position function pinned to p
+        pos_box = [0]
+        real.compute_ring_position = lambda key, _b=pos_box: _b[0]
         evals += 65536
-        for p in (0, 1, 65535, 32768) + tuple(rnd.randrange(65536) for _ in range(50)):
-          if ow[p] != S.lookup_at(spec, p):
-            fail('c06-compat-lookup', hash_type=ht, nodes=nodes, position=p)
+        for p in range(65536):
+          pos_box[0] = p
+          if real.get_node('k') != S.lookup_at(spec, p):
+            fail('c06-compat-lookup', hash_type=ht, nodes=nodes, position=p, got=repr(real.get_node('k')), want=repr(S.lookup_at(spec, p)))
+            break
+        # ... and the preference order (get_nodes) at, just before and just after every 7th entry
+        import bisect as _bis
+        nn = len(set(nodes))
+        for e in spec[::7]:
+          for p in (e[0] - 1, e[0], e[0] + 1):
+            if not (0 <= p < 65536):
+              continue
+            pos_box[0] = p
+            start = _bis.bisect_left(spec, (p, ())) % len(spec)
+            want = []
+            for k in range(len(spec)):
+              nd = spec[(start + k) % len(spec)][1]
+              if nd not in want:
+                want.append(nd)
+            evals += 1
+            got = list(real.get_nodes('k'))
+            if got != want[:nn]:
+              fail('c06-compat-get_nodes', hash_type=ht, nodes=nodes, position=p, got=repr(got), want=repr(want))
+              break
+        del real.compute_ring_position
         for k in KEYS:
           evals += 1
           if list(real.get_nodes(k)) != S.lookup_all(spec, k, ht, len(set(nodes))):
